@@ -3,7 +3,7 @@
 From Coq Require Import List ZArith Arith Bool.
 From PF Require Import Lib.ListX Lib.PySlice Model.Ragged Model.RaggedSpec.
 From PF Require Import Model.RaggedRun Model.RaggedCat Model.RaggedStore.
-From PF Require Import Proofs.MntProofs Proofs.MetProofs Proofs.RaggedEntryProofs Proofs.RaggedStoreSelect Proofs.RaggedStoreSelectMet Proofs.RaggedStoreProofs.
+From PF Require Import Proofs.MntProofs Proofs.MetProofs Proofs.RaggedEntryProofs Proofs.RaggedStoreSelect Proofs.RaggedStoreSelectMet Proofs.RaggedStoreProofs Proofs.MaskFacts Proofs.MaskRagged.
 Import ListNotations.
 
 Section C05.
@@ -248,6 +248,34 @@ Section C05.
     /\ (forall h0, e_buf h0 < length st -> e_read A st' h0 = e_read A st h0)
     /\ (st' = st \/ exists b, st' = st ++ [b]).
   Proof. exact (met_select_store_sound_proof A). Qed.
+  (* The boolean mask in plain terms (Proofs/MaskFacts.v, Proofs/MaskRagged.v).  `py_positions` gives a mask the
+     meaning the code gives it (mask.nonzero().flatten(), then the positional selection); these four say that on
+     either axis of either container this keeps EXACTLY the rows (columns) whose entry is True, each once, in their
+     original order -- `keep_true mk l = map fst (filter snd (combine l mk))` -- with count_true mk columns left,
+     and that a mask of any other length raises. *)
+  Theorem mnt_mask_rows_plain : forall (c : nat) (m : cellmat A) (mk : list bool),
+    rect c m ->
+    select A _ (mnt_kernels A) (mnt_of_cells c m) (IMask mk) 0 =
+    if (length mk =? length m)%nat then Some (mnt_of_cells c (keep_true mk m)) else None.
+  Proof. exact (mnt_mask_rows_proof A). Qed.
+
+  Theorem mnt_mask_cols_plain : forall (c : nat) (m : cellmat A) (mk : list bool),
+    rect c m ->
+    select A _ (mnt_kernels A) (mnt_of_cells c m) (IMask mk) 1 =
+    if (length mk =? c)%nat then Some (mnt_of_cells (count_true mk) (map (keep_true mk) m)) else None.
+  Proof. exact (mnt_mask_cols_proof A). Qed.
+
+  Theorem met_mask_rows_plain : forall (ws : list nat) (m : cellmat A) (mk : list bool),
+    rect_w ws m ->
+    select A _ (met_kernels A) (met_of_cells ws m) (IMask mk) 0 =
+    if (length mk =? length m)%nat then Some (met_of_cells ws (keep_true mk m)) else None.
+  Proof. exact (met_mask_rows_proof A). Qed.
+
+  Theorem met_mask_cols_plain : forall (ws : list nat) (m : cellmat A) (mk : list bool),
+    rect_w ws m ->
+    select A _ (met_kernels A) (met_of_cells ws m) (IMask mk) 1 =
+    if (length mk =? length ws)%nat then Some (met_of_cells (keep_true mk ws) (map (keep_true mk) m)) else None.
+  Proof. exact (met_mask_cols_proof A). Qed.
 End C05.
 
 (* the dim argument as Python passes it: 0/-3 rows, 1/-2 columns, everything else
@@ -280,6 +308,10 @@ Print Assumptions mnt_select_store_sound.
 Print Assumptions met_select_store_frame.
 Print Assumptions met_select_store_sound.
 Print Assumptions normalize_dim_z_spec.
+Print Assumptions mnt_mask_rows_plain.
+Print Assumptions mnt_mask_cols_plain.
+Print Assumptions met_mask_rows_plain.
+Print Assumptions met_mask_cols_plain.
 
 (* ---------------------------------------------------------------------- *)
 (* Non-vacuity: the hypotheses are met by concrete non-trivial states, and the
@@ -357,3 +389,9 @@ Example ex_store_select_met :
   (exists st' r, e_select nat st h (IList [1%Z; 0%Z]) 0 = Some (st', r) /\ e_buf r = 1
              /\ e_read nat st' h = e_read nat st h).
 Proof. vm_compute. split; [eexists; repeat split | eexists; eexists; repeat split]. Qed.
+
+Example ex_mask_cols_plain :
+  select nat _ (mnt_kernels nat) (mnt_of_cells 3 [[[1]; [2; 3]; []]; [[4]; []; [5]]]) (IMask [true; false; true]) 1
+  = Some (mnt_of_cells 2 [[[1]; []]; [[4]; [5]]])
+  /\ select nat _ (mnt_kernels nat) (mnt_of_cells 3 [[[1]; [2; 3]; []]; [[4]; []; [5]]]) (IMask [true; false]) 1 = None.
+Proof. vm_compute. split; reflexivity. Qed.
